@@ -638,6 +638,19 @@ def canon_text(f, e, depth=3):
     return ast.unparse(t)
 
 
+def deref(f, e, depth=3):
+    """the value expression behind e: a local with exactly one plain definition stands for that definition
+    (so `t = g(x); h(t)` and `h(g(x))` look the same to a rule)."""
+    while depth > 0 and isinstance(e, ast.Name):
+        ds = local_defs(f, e.id)
+        if len(ds) == 1 and isinstance(ds[0], ast.AST):
+            e = ds[0]
+            depth -= 1
+        else:
+            break
+    return e
+
+
 def var_from_call(f, callee_name, index=None):
     """name of the local that receives the result of a call to <callee_name> (index: position in a tuple-unpack)"""
     for n in walk_shallow(f.node):
